@@ -108,10 +108,9 @@ contract(
     globals=_GLOBALS,
     ensures={
         # a pair is listed only if it has one of the two shapes and BOTH names occur among the glyphs' anchors
-        # (quantified over the ELEMENTS of the list: `p in sorted(xs)` iff `p in xs`, no position bookkeeping across the sort)
-        "pair-shapes": "all(" + _pair_ok("p") + " for p in elems(result))",
-        "entry-name-occurs": "all(" + _occurs("p[0]") + " for p in elems(result))",
-        "exit-name-occurs": "all(" + _occurs("p[1]") + " for p in elems(result))",
+        "pair-shapes": "all(" + _pair_ok("result[k]") + " for k in range(len(result)))",
+        "entry-name-occurs": "all(" + _occurs("result[k][0]") + " for k in range(len(result)))",
+        "exit-name-occurs": "all(" + _occurs("result[k][1]") + " for k in range(len(result)))",
         "increasing-entry-names": "all(all(implies(k1 < k2, result[k1][0] <= result[k2][0]) for k2 in range(len(result))) for k1 in range(len(result)))",
     },
     canaries={"empty": "len(result) == 0"},
@@ -120,9 +119,9 @@ contract(
     loops={
         LOOP1: Loop(index="i", invariants={"names-occur": "all(" + _occurs("n", "i") + " for n in anchors)"}),
         LOOP2: Loop(done="D", invariants={
-            "shapes": "all(" + _pair_ok("p") + " for p in elems(anchorPairs))",
-            "entry-occurs": "all(" + _occurs("p[0]") + " for p in elems(anchorPairs))",
-            "exit-occurs": "all(" + _occurs("p[1]") + " for p in elems(anchorPairs))",
+            "shapes": "all(" + _pair_ok("anchorPairs[k]") + " for k in range(len(anchorPairs)))",
+            "entry-occurs": "all(" + _occurs("anchorPairs[k][0]") + " for k in range(len(anchorPairs)))",
+            "exit-occurs": "all(" + _occurs("anchorPairs[k][1]") + " for k in range(len(anchorPairs)))",
         }),
     },
 )
